@@ -219,6 +219,14 @@ pub fn check_program(prog: &Program, seed: u64, thorough: bool, rep: &mut Report
 }
 
 pub fn run(p: &Params, rep: &mut Report) {
+    {
+        // subjects of about 2^16 characters (and twice that in the thorough tier): one pattern per shard
+        let ns: Vec<usize> = if p.thorough { vec![65_535, 65_536, 65_537, 131_073] } else { vec![65_530 + (p.seed as usize % 5) * 3, 65_536 + (p.shard as usize % 3)] };
+        for n in ns {
+            super::ladder::long_subject_replace(rep, p.shard as usize, n, p.seed);
+        }
+    }
+    for_max_loop_programs(p, rep, p.size(20, 200), |prog, seed, rep| check_program(prog, seed, p.thorough, rep));
     let n = p.size(300, 3000);
     let w = [(Profile::Boundary, 20), (Profile::Loops, 30), (Profile::Boolean, 25), (Profile::Patterns, 10), (Profile::Mixed, 15)];
     let mut rng = p.rng(10);
